@@ -331,6 +331,10 @@ class Func:
         self.exit = d.get("exit")
         for b in d.get("blocks", []):
             self.blocks[b["id"]] = Block(b)
+        # a block ending in a call to a noreturn function (__assert_fail, abort) does not continue
+        for b in self.blocks.values():
+            if b.noreturn:
+                b.succs = []
         # prune edges of constant conditions (`while (1)`, `do {} while (0)`)
         for b in self.blocks.values():
             t = b.term
